@@ -108,7 +108,7 @@ def check_beta(mon, theta):
 def shard(mon, tier, rng, shard_no, nshards):
     grid = np.arange(0.5, 180, 0.5)
     mine = grid[shard_no::nshards]
-    extra = np.round(rng.uniform(0.05, 179.95, size=4 if tier == "quick" else 60), 4)
+    extra = np.round(rng.uniform(0.05, 179.95, size=4 if tier == "quick" else 400), 4)
     for th in list(mine) + list(extra):
         th = float(th)
         order = gen.make_order("theta", theta=th)
@@ -121,14 +121,14 @@ def shard(mon, tier, rng, shard_no, nshards):
         if shard_no % 3 == ("acute", "right", "obtuse").index(t):
             check_cone(mon, f"cone3d-{t}", gen.make_order("cone3d", type=t), rng, "cone3d")
     Ks = list(range(3, 25))
-    for j in range(3 if tier == "quick" else 30):
+    for j in range(3 if tier == "quick" else 100):
         K = Ks[(shard_no * 3 + j) % len(Ks)]
         th = float(np.round(rng.uniform(5, 85), 2))
         mon.count("icecream_cones")
         if K > 3:
             mon.count("Kgtm_cones")
         check_cone(mon, f"icecream{th:g}-K{K}", gen.make_order("icecream", theta=th, K=K), rng, "icecream")
-    for j in range(10 if tier == "quick" else 150):
+    for j in range(10 if tier == "quick" else 600):
         m = int(rng.choice([2, 3, 4]))
         K = m + int(rng.integers(0, 5))
         W = G.random_cone(rng, m, K, min_interior=float(rng.choice([0.05, 0.2, 0.5])))
